@@ -32,6 +32,7 @@ type Harness struct {
 	Tiers     []string // tiers it runs in (empty = all)
 	Panics    bool     // a panic escaping the harness is a violation
 	Seq       bool     // run `go` statements synchronously
+	Locks     bool     // track mutex state; self-deadlock is a panic, TryLock answers from the state
 	MapOrders []string // //gosym:maporders: functions whose small map ranges run in every order
 }
 
@@ -72,6 +73,8 @@ func LoadHarnessFiles(paths []string) (*HarnessSet, error) {
 						pending.Panics = true
 					case "seqgo":
 						pending.Seq = true
+					case "locks":
+						pending.Locks = true
 					}
 				}
 			case strings.HasPrefix(line, "//gosym:maporders "):
@@ -163,6 +166,7 @@ func (s *Session) Explore(h Harness) (*Report, error) {
 	}
 	s.Engine.SeqGo = h.Seq
 	s.Engine.MapOrders = h.MapOrders
+	s.Engine.TrackLocks = h.Locks
 	rep := s.Engine.Explore(fn)
 	for _, c := range h.Covers {
 		if rep.Covers[c] == 0 {
